@@ -4,8 +4,11 @@
 package sched
 
 import (
+	"fmt"
+	"os"
 	"sort"
 	"sync"
+	"time"
 
 	"tkestack.io/kvass/pkg/verifhook"
 )
@@ -45,7 +48,12 @@ func (s *Sched) Uninstall() {
 	}
 }
 
+var ytrace = os.Getenv("KVSIM_YTRACE") != ""
+
 func (s *Sched) yield(site string) {
+	if ytrace {
+		fmt.Fprintf(os.Stdout, "YTRACE park %s at %s enabled=%v\n", site, time.Now().Format("15:04:05.000000000"), s.enabled)
+	}
 	s.mu.Lock()
 	if !s.enabled {
 		s.mu.Unlock()
@@ -74,6 +82,9 @@ func (s *Sched) Pending() []*Parked {
 }
 
 func (s *Sched) Release(p *Parked) {
+	if ytrace {
+		fmt.Fprintf(os.Stdout, "YTRACE release %s at %s\n", p.Site, time.Now().Format("15:04:05.000000000"))
+	}
 	// each released goroutine proceeds at its own fake instant (see Sleep)
 	Sleep(0)
 	s.mu.Lock()
